@@ -2,7 +2,7 @@
    Property theorems only; proofs live in Proofs/InputsP.v, Proofs/AcceptsP.v, Proofs/DefaultsP.v. *)
 From Coq Require Import List String Ascii ZArith Bool.
 From AC Require Import Base.Json Base.Strs Gql.InSchema Gql.InCoerce Model.Names Model.Defaults Model.Inputs
-  Py.PyEval Proofs.InputsP Proofs.AcceptsP Proofs.DefaultsP.
+  Py.PyEval Proofs.InputsP Proofs.AcceptsP Proofs.DefaultsP Proofs.ValidateP Proofs.ByNameP.
 Import ListNotations.
 Local Open Scope string_scope.
 
@@ -55,6 +55,17 @@ Proof.
 Qed.
 Print Assumptions C06_input_accepts.
 
+(* the same value with every object key replaced, at every nesting level, by the generated Python field name
+   (what a user writes with keyword arguments) is accepted too: populate_by_name *)
+Theorem C06_input_accepts_by_name : forall s cs snake, schema_ok snake s = true ->
+  forall n t j cv, coerce_input n s t j = Some cv ->
+  accepts n (env_of s cs snake) (fst (parse_input_field_type s cs t true)) (rename n s snake t j) = true.
+Proof.
+  intros s cs snake OK n t j cv C.
+  apply (accepts_by_name s cs snake OK n t true j cv); [discriminate | exact C].
+Qed.
+Print Assumptions C06_input_accepts_by_name.
+
 Definition S21 : schema := [("In", DInput [{| i_name := "a"; i_type := TNonNull (TList (TNamed "String")); i_default := None |}])].
 Definition V21 : json := JObj [("a", JArr [JNull])].
 
@@ -84,6 +95,47 @@ Theorem C06_refuses_missing_required : forall s cs snake nm fs f kv n,
   accepts n (env_of s cs snake) (AClass nm) (JObj kv) = false.
 Proof. exact refuses_missing_required. Qed.
 Print Assumptions C06_refuses_missing_required.
+
+(* ================= validate (builds the instance, calls defaults) vs accepts (shape) ================= *)
+(* full: the complete validation succeeds only on values of accepted shape *)
+Theorem C06_validate_implies_accepts : forall E n a j v, validate n E a j = Ok v -> accepts n E a j = true.
+Proof. exact validate_accepts. Qed.
+Print Assumptions C06_validate_implies_accepts.
+
+(* partial: an accepted value builds, provided the default expressions evaluate at every fuel below n
+   (defaults_ok; satisfiable exactly when no default is an object literal, whose model_validate needs fuel:
+   those are covered by K2/K3 and by Example C06_object_default_ok) *)
+Theorem C06_accepts_implies_validate_partial : forall E n, defaults_ok n E ->
+  forall a j, accepts n E a j = true -> exists v, validate n E a j = Ok v.
+Proof. exact accepts_validate. Qed.
+Print Assumptions C06_accepts_implies_validate_partial.
+
+(* composition: every value the schema's coercion accepts builds the real instance *)
+Theorem C06_input_builds_partial : forall s cs snake, schema_ok snake s = true ->
+  forall n, defaults_ok n (env_of s cs snake) ->
+  forall t j cv, coerce_input n s t j = Some cv ->
+  exists v, validate n (env_of s cs snake) (fst (parse_input_field_type s cs t true)) j = Ok v.
+Proof.
+  intros s cs snake OK n D t j cv C. apply (accepts_validate _ n D).
+  apply (accepts_complete s cs snake OK n t true j cv); [discriminate | exact C].
+Qed.
+Print Assumptions C06_input_builds_partial.
+
+Definition SV : schema :=
+  [("Kind", DEnum ["A"; "class"]);
+   ("In", DInput [{| i_name := "k"; i_type := TNamed "Kind"; i_default := Some (CEnum "class") |};
+                  {| i_name := "l"; i_type := TList (TNamed "Int"); i_default := Some (CList [CInt 1; CNull]) |};
+                  {| i_name := "fooBar"; i_type := TNonNull (TNamed "Int"); i_default := None |};
+                  {| i_name := "self"; i_type := TNamed "In"; i_default := None |}])].
+Example C06_defaults_ok_satisfiable : schema_ok true SV = true /\ defaults_ok 7 (env_of SV [] true).
+Proof.
+  split; [vm_compute; reflexivity|].
+  intros m cl f e _ Hcl Hf He. simpl in Hcl. destruct Hcl as [<-|[]].
+  vm_compute in Hf.
+  repeat (destruct Hf as [<-|Hf]; [vm_compute in He; destruct He as [He|He]; inversion He; subst;
+                                   destruct m; vm_compute; eauto|]).
+  contradiction.
+Qed.
 
 (* the converse (accepted by the model => accepted by the schema) is NOT claimed: pydantic ignores unknown
    keys, converts "12" to int, and Any accepts null for a non-null custom scalar *)
@@ -184,6 +236,12 @@ Example C06_hypotheses_satisfiable :
   good_default SX (CList [CList [CStr "x"]; CNull]) (TList (TList (TNonNull (TNamed "String")))) = true /\
   good_default SX (CEnum "A") (TNamed "Kind") = true /\ good_default SX (CEnum "class") (TNamed "Kind") = true.
 Proof. vm_compute. repeat split; eauto. Qed.
+
+Example C06_rename_nontrivial :
+  rename 6 SX true (TNonNull (TNamed "In")) JX =
+  JObj [("class_", JArr [JObj [("foo_bar", JInt 1); ("tags", JArr [JNull; JArr [JStr "t"]])]]);
+        ("self", JObj [("class_", JArr [])])].
+Proof. vm_compute. reflexivity. Qed.
 
 (* an object default of scalars works in the model: instance with only required fields, dumped by alias *)
 Example C06_object_default_ok :
